@@ -404,3 +404,75 @@ def coq_staged_case(steps, fail, raised, stored) -> str:
     failing = coq.coq_list([f'("{k}", {v})' for k, v in fail.items()])
     r = "None" if raised is None else f'(Some "{raised}")'
     return f"judge_staged {steps} {failing} {r} {coq.coq_list([chr(34) + s + chr(34) for s in stored])}"
+
+
+# ------------------------------------------------------------------ the recursive tree walkers (Model/ContainWalk.v)
+def _depth_count(root, ty):
+    """depth of a tree-sitter tree and number of nodes of a type, without recursion"""
+    depth, count, stack = 0, 0, [(root, 1)]
+    while stack:
+        node, d = stack.pop()
+        depth = max(depth, d)
+        if node.type == ty:
+            count += 1
+        for ch in node.children:
+            stack.append((ch, d + 1))
+    return depth, count
+
+
+def _walk_call(analyzer, root, ty):
+    """always called from run_walk_cases directly: the number of interpreter frames in use is the same for every case"""
+    try:
+        return len(analyzer.walk_tree(root, ty))
+    except RecursionError:
+        return None
+
+
+def run_walk_cases(r, n):
+    """-> (fuel, [(lang, kind, size, node type, real depth, real count, impl result)], notes).  The frames left (`fuel`) are
+    calibrated in this run on parenthesis chains; every other shape / language must then fail exactly when its depth exceeds fuel."""
+    from harness.props import c11_mut
+    try:
+        from src.analyzers.rust_base import RUST_PARSER, RustBaseAnalyzer
+        from src.analyzers.typescript_base import TS_PARSER, TypeScriptBaseAnalyzer
+    except ImportError as e:
+        return None, [], [f"tree-sitter analyzers not importable ({e}): walker correspondence skipped"]
+    an = {"ts": (TypeScriptBaseAnalyzer(), TS_PARSER), "rs": (RustBaseAnalyzer(), RUST_PARSER)}
+
+    def one(lang, kind, size, ty):
+        a, parser = an[lang]
+        root = parser.parse(c11_mut.blowup_text(lang, kind, size)).root_node
+        d, c = _depth_count(root, ty)
+        return d, c, _walk_call(a, root, ty)
+
+    ok_max, fail_min = 0, 10 ** 9
+    lo, hi = 10, 4000
+    while lo <= hi:                       # calibration: largest depth that still fits / smallest that does not
+        mid = (lo + hi) // 2
+        d, _c, res = one("ts", "paren", mid, "number")
+        if res is None:
+            fail_min = min(fail_min, d)
+            hi = mid - 1
+        else:
+            ok_max = max(ok_max, d)
+            lo = mid + 1
+    if fail_min == 10 ** 9 or ok_max == 0:
+        return None, [], ["walker calibration found no threshold below 4000 nested parentheses"]
+    fuel = fail_min - 1
+    notes = [] if ok_max == fuel else [f"walker calibration: largest fitting depth {ok_max}, smallest overflowing depth {fail_min}"]
+    shapes = {"ts": [("paren", "number"), ("array", "array"), ("binop", "number"), ("not", "identifier"), ("attr", "identifier"), ("call", "identifier"),
+                     ("block", "if_statement"), ("arrow", "arrow_function"), ("object", "pair"), ("ternary", "number")],
+              "rs": [("paren", "integer_literal"), ("array", "array_expression"), ("binop", "integer_literal"), ("not", "identifier"),
+                     ("call", "identifier"), ("block", "if_expression"), ("closure", "closure_expression"), ("ref", "primitive_type"), ("match", "match_arm")]}
+    out = []
+    for i in range(n):
+        lang = "ts" if i % 2 == 0 else "rs"
+        kind, ty = shapes[lang][(i // 2) % len(shapes[lang])]
+        size = r.choice([r.randrange(20, 200), r.randrange(200, 700), r.randrange(700, 1400), r.randrange(fuel // 3, fuel + 300)])
+        d, c, res = one(lang, kind, size, ty)
+        out.append((lang, kind, size, ty, d, c, res))
+    return fuel, out, notes
+
+
+def coq_walk_case(fuel, d, c, res) -> str:
+    return f"judge_walk walk_actual {fuel} {d} {c} {'None' if res is None else '(Some %d)' % res}"
